@@ -1,12 +1,13 @@
 (* Main.v — single entry point of the extracted model: one request tree in, one
    response tree out.  The OCaml driver only parses and prints trees. *)
 From Coq Require Import String List.
-From Prov Require Import Str Sexp Tables Nsm Scope.
+From Prov Require Import Str Sexp Tables Nsm Scope Values Record World Interp.
 Import ListNotations.
 Open Scope string_scope.
 
 Definition run (req : sexp) : sexp :=
   match req with
   | L (A "nsprog" :: ops) => L (run_nsprog scope_init ops)
+  | L (A "prog" :: L ft :: ops) => run_prog ft ops
   | _ => A "unknown-request"
   end.
